@@ -189,8 +189,71 @@ Proof.
   intros (HB & HC & HL) Hr Hk. split; [|split].
   - exact (binv_step K Rth argsort (argsort_perm_bound argsort AP) l2r k s c P ro st G HB Hr).
   - rewrite beam_step_tab. apply bcov_take.
-    + apply (bcov_ext K l2r P ro); auto. eapply binv_rect; eauto.
+    + apply (bcov_ext l2r P ro); auto. eapply binv_rect; eauto.
     + apply (step_ind_all l2r k c P ro st G HB Hr). now rewrite HL.
   - rewrite beam_step_tab, length_itake, (length_step_ind l2r k c P ro st G HB Hr), HL, shape_grow. lia.
 Qed.
 End FullRun.
+
+(* the chain seen from the sweep: first core, remaining cores in visiting order *)
+Definition decomp_ok {T} (l2r : bool) (Z : list (core T)) (G0 : core T) (rest : list (core T)) : Prop :=
+  rin l2r G0 = 1 /\ compat l2r (rout l2r G0) rest 1 /\ growall l2r [G0] rest = Z /\
+  length Z = S (length rest) /\ nel (shape Z) = cn G0 * nel (shape rest) /\
+  forall Pr : core T -> Prop, Forall Pr Z -> Pr G0 /\ Forall Pr rest.
+Lemma decomp_l {T} (G0 : core T) rest : chain 1 (G0 :: rest) 1 -> decomp_ok true (G0 :: rest) G0 rest.
+Proof.
+  cbn [chain]. intros [H1 HC]. split; [exact H1|]. split; [apply compat_l; exact HC|]. split; [now rewrite growall_l|].
+  split; [reflexivity|]. split; [reflexivity|]. intros Pr HF. inversion HF; auto.
+Qed.
+Lemma decomp_r {T} (G0 : core T) rest : chain 1 (rev rest ++ [G0]) 1 -> decomp_ok false (rev rest ++ [G0]) G0 rest.
+Proof.
+  intros HC. apply chain_snoc in HC. destruct HC as [HC H1].
+  split; [exact H1|]. split; [apply compat_r; exact HC|]. split; [now rewrite growall_r|].
+  split; [rewrite app_length, rev_length; cbn [length]; lia|]. split.
+  - unfold shape. rewrite map_app, nel_app, map_rev, nel_rev. cbn [map]. unfold nel at 2. cbn [fold_right]. lia.
+  - intros Pr HF. apply Forall_app in HF as [HF1 HF2]. inversion HF2; subst. split; auto.
+    apply Forall_rev in HF1. now rewrite rev_involutive in HF1.
+Qed.
+Lemma beam_decomp {T} l2r (Z : list (core T)) : chain 1 Z 1 -> Z <> [] ->
+  decomp_ok l2r Z (beam_first l2r Z) (beam_rest l2r Z).
+Proof.
+  intros HC Hne. destruct l2r.
+  - pose proof (first_rest_l Z Hne) as E. rewrite E in HC. rewrite E at 1. apply decomp_l. exact HC.
+  - pose proof (first_rest_r Z Hne) as E. rewrite E in HC. rewrite E at 1. apply decomp_r. exact HC.
+Qed.
+
+(* ---- any k >= 1: the table never becomes empty, so the returned first row exists and is in bounds ---- *)
+Section AnyK.
+Context {T : Type} (K : ops T).
+Hypothesis Rth : rng K.
+Variable argsort : nat -> list T -> list nat.
+Hypothesis AP : argsort_perm argsort.
+
+Lemma fold_nonempty l2r k s rest : forall c P ro st rf,
+  binv K l2r c P ro (st_tab st) (st_mat st) -> compat l2r ro rest rf -> Forall (fun G => 1 <= cn G) rest ->
+  1 <= k -> 1 <= length (st_tab st) ->
+  1 <= length (st_tab (fold_left (beam_step K argsort l2r k s) rest st)).
+Proof.
+  induction rest as [|G rest IH]; intros c P ro st rf HB HC HF Hk HL; cbn [fold_left compat] in *; [exact HL|].
+  destruct HC as [Hr HC]. pose proof (Forall_inv HF) as Hn. pose proof (Forall_inv_tail HF) as HF'. cbv beta in Hn.
+  eapply IH; [exact (binv_step K Rth argsort (argsort_perm_bound argsort AP) l2r k s c P ro st G HB Hr)|exact HC|exact HF'|exact Hk|].
+  eapply (step_nonempty K Rth argsort AP); eauto.
+Qed.
+
+Theorem beam_first_inb cs (Z : list (core T)) k l2r s : chain 1 Z 1 -> Z <> [] ->
+  Forall (fun n => 1 <= n) (shape Z) -> 1 <= k ->
+  inb (shape Z) (hd [] (st_tab (beam_run K argsort cs Z k l2r s))).
+Proof.
+  intros HC Hne Hn Hk.
+  destruct (beam_rows K Rth argsort (argsort_perm_bound argsort AP) cs Z k l2r s HC Hne) as [_ H].
+  assert (L : 1 <= length (st_tab (beam_run K argsort cs Z k l2r s))).
+  { destruct (beam_decomp l2r Z HC Hne) as (H1 & Hcp & _ & _ & _ & HFa).
+    assert (HFc : Forall (fun G : core T => 1 <= cn G) Z).
+    { unfold shape in Hn. apply Forall_forall. intros G HG. rewrite Forall_forall in Hn. apply Hn. now apply in_map. }
+    destruct (HFa _ HFc) as [Hn0 Hnr]. unfold beam_run.
+    eapply fold_nonempty; [apply (binv_init K Rth); exact H1|exact Hcp|exact Hnr|exact Hk|].
+    unfold beam_init, st_tab, irange. cbn [fst snd]. now rewrite tab_length. }
+  destruct (st_tab (beam_run K argsort cs Z k l2r s)) as [|r0 tb] eqn:E; [cbn in L; lia|].
+  cbn [hd]. apply (H O). cbn; lia.
+Qed.
+End AnyK.
